@@ -31,3 +31,7 @@ def field_linear_time(inp):
                 bad.append({'start_time': t0, 'dt': dt, 'num_steps': N, 'record_all': ra,
                             'observed': [round(x.real, 6) for x in got], 'required': [round(x, 6) for x in want]})
     return {'violates': bool(bad), 'detail': bad[:3], 'field_eom': 'f(t, states, a) = t'}
+
+
+# thorough tier (bounded native sweeps): (function, inputs, obligation of the open finding it reproduces or None)
+THOROUGH = [('field_linear_time', {}, None)]
